@@ -1,0 +1,114 @@
+// Copyright (c) The Thanos Community Authors.
+// Licensed under the Apache License 2.0.
+
+package exchange
+
+import (
+	"context"
+	"math"
+	"sync"
+
+	"github.com/efficientgo/core/errors"
+	"github.com/prometheus/prometheus/model/labels"
+
+	"github.com/thanos-community/promql-engine/execution/model"
+)
+
+// duplicateLabelCheck sits on top of an operator whose output series can end up
+// with equal label sets, e.g. because it drops the metric name. Like the reference
+// engine it fails the query when two such series have a sample at the same step
+// or, for the operators the reference engine evaluates over the whole window at
+// once (unary minus, functions over range vectors), anywhere in the window.
+// An operator without colliding series is passed through unchecked.
+type duplicateLabelCheck struct {
+	next model.VectorOperator
+	// anywhere is set if two colliding series must not both have samples at all.
+	anywhere bool
+
+	once sync.Once
+	err  error
+	// group maps a series ID to its group of series with equal label sets, or to -1.
+	group []int
+	// seen holds, per group, the last step at which a sample of the group was seen.
+	seen []int64
+	// owner holds, per group, the series whose samples have been seen so far (or -1).
+	owner []int64
+}
+
+func NewDuplicateLabelCheck(next model.VectorOperator, anywhereInWindow bool) model.VectorOperator {
+	return &duplicateLabelCheck{next: next, anywhere: anywhereInWindow}
+}
+
+func (d *duplicateLabelCheck) Explain() (me string, next []model.VectorOperator) {
+	return d.next.Explain()
+}
+
+func (d *duplicateLabelCheck) Series(ctx context.Context) ([]labels.Labels, error) {
+	return d.next.Series(ctx)
+}
+
+func (d *duplicateLabelCheck) GetPool() *model.VectorPool {
+	return d.next.GetPool()
+}
+
+func (d *duplicateLabelCheck) Next(ctx context.Context) ([]model.StepVector, error) {
+	in, err := d.next.Next(ctx)
+	if err != nil || in == nil {
+		return in, err
+	}
+	d.once.Do(func() { d.err = d.init(ctx) })
+	if d.err != nil {
+		return nil, d.err
+	}
+	if len(d.seen) == 0 {
+		return in, nil
+	}
+	for _, vector := range in {
+		for _, id := range vector.SampleIDs {
+			if id >= uint64(len(d.group)) {
+				continue
+			}
+			g := d.group[id]
+			if g < 0 {
+				continue
+			}
+			if d.seen[g] == vector.T || (d.anywhere && d.owner[g] >= 0 && d.owner[g] != int64(id)) {
+				return nil, errors.New("vector cannot contain metrics with the same labelset")
+			}
+			d.seen[g] = vector.T
+			d.owner[g] = int64(id)
+		}
+	}
+	return in, nil
+}
+
+func (d *duplicateLabelCheck) init(ctx context.Context) error {
+	series, err := d.next.Series(ctx)
+	if err != nil {
+		return err
+	}
+	d.group = make([]int, len(series))
+	first := make(map[uint64][]int, len(series))
+	groupOf := make(map[int]int)
+	for i, s := range series {
+		d.group[i] = -1
+		h := s.Hash()
+		for _, j := range first[h] {
+			if !labels.Equal(series[j], s) {
+				continue
+			}
+			g, ok := groupOf[j]
+			if !ok {
+				g = len(d.seen)
+				groupOf[j] = g
+				d.group[j] = g
+				d.seen = append(d.seen, math.MinInt64)
+				d.owner = append(d.owner, -1)
+			}
+			d.group[i] = g
+			break
+		}
+		first[h] = append(first[h], i)
+	}
+	return nil
+}
